@@ -22,6 +22,7 @@ compile and the proof obligation breaks):
                x = e;   self.f.g = e;   self.f.g += e;    rebindings (of a local, of a nested field)
                if c { block }                   (no else, followed by more statements)
                let pat = match s { .. };        arms give the value, or `return`
+               let pat = if let p = e { .. } else { .. };
                continue;
                while c { block }   loop { block }    a loop: a function of its own, recursive on fuel
                if c { block } else { block }    as a statement
@@ -66,7 +67,10 @@ Semantics given to it (the trusted part of this translator):
     is a stateful external that receives the handle, the arguments and self; so is a call named in
     the group's "stateful_calls" (a closure parameter with effects, a parser that counts), and a
     chain of calls on a stateful field (self.buf.prepare_reserve(n).read_from(s)) is one stateful
-    external named by the chain; a constant of another crate is an external value;
+    external named by the chain; a constant of another crate is an external value; for a free
+    function the group's "state_param" names the parameter that plays the part of self (a
+    `&mut ChannelSlot`, a `&Sender<T>` standing for the queue behind it), and "self_methods" its
+    methods that are stateful externals;
   * `as usize` / `as u64` casts are dropped (u64 -> usize is the identity on the 64-bit targets the
     crate is built for here); Vec::with_capacity(n) is the empty vector (capacity is not
     observable); `.clone()` and `&` / `*` are the identity on values.
@@ -173,6 +177,15 @@ class Parser:
                 self.eat("=")
                 if self.peek() == "match":
                     e = ("matchexpr", self.match())
+                elif self.peek() == "if" and self.peek(1) == "let":
+                    self.eat(); self.eat()
+                    ipat = self.pattern()
+                    self.eat("=")
+                    iex = self.postfix()
+                    th = self.block()
+                    self.eat("else")
+                    el = self.block()
+                    e = ("ifletexpr", ipat, iex, th, el)
                 else:
                     e = self.expr()
                 self.eat(";")
@@ -180,7 +193,10 @@ class Parser:
                 continue
             if tok == "return":
                 self.eat()
-                e = self.expr()
+                if self.peek() == ";":
+                    e = ("ctor", "()", [])
+                else:
+                    e = self.expr()
                 self.eat(";")
                 stmts.append(("return", e))
                 continue
@@ -383,6 +399,8 @@ class Parser:
             return self.match()
         if self.peek() == "return":
             self.eat()
+            if self.peek() in (",", "}"):
+                return ("ret", ("ctor", "()", []))
             return ("ret", self.expr())
         if self.peek() == "continue":
             self.eat()
@@ -433,7 +451,7 @@ class Parser:
                 if self.peek() == ",":
                     self.eat()
             self.eat(")")
-            return ("ctor", "tuple", ps)
+            return ("ctor", "tuple", ps) if ps else ("ctor", "()", [])
         path = self.path()
         if self.peek() == "(":
             self.eat()
@@ -637,6 +655,7 @@ class Gen:
         self.fuelcalls = set()
         self.stcalls = set()
         self.stcalls = set()
+        self.selfmethods = set()
         self.ty = " * ".join(["val"] * (len(threaded) + 1))
 
     def fresh(self, base):
@@ -786,7 +805,7 @@ class Gen:
         """does evaluating x change self (a call of a translated &mut self function, an operation on a
         channel end of self), or return early (`?`)?"""
         k = x[0]
-        if k in ("try", "matchexpr"):
+        if k in ("try", "matchexpr", "ifletexpr"):
             return True
         if k == "call" and x[1] in self.stcalls:
             return True
@@ -795,6 +814,8 @@ class Gen:
         if k == "method":
             recv, m, args = x[1], x[2], x[3]
             if recv == ("var", "self") and m in self.calls and self.calls[m] in self.mutcalls:
+                return True
+            if recv == ("var", "self") and m in self.selfmethods:
                 return True
             if self.stateful_recv(recv) and m not in ("len", "is_empty"):
                 return True
@@ -827,6 +848,14 @@ class Gen:
             return self.ev(x[1], env, after)
         if kind == "matchexpr":
             return self.match(x[1], env, k)
+        if kind == "ifletexpr":
+            _, ipat, iex, th, el = x
+
+            def go(env2, val):
+                v, r = self.fresh("v"), self.fresh("else")
+                return ("let %s := %s in\nlet %s := fun _ : unit =>\n%s in\n%s" % (
+                    v, val, r, self.block(el, env2, k), self.pat(ipat, v, env2, lambda env3: self.block(th, env3, k), "%s tt" % r)))
+            return self.ev(iex, env, go)
         if kind == "call" and x[1] in self.stcalls:
             if "self" not in self.threaded:
                 raise Fail("stateful call in a function that does not take &mut self")
@@ -873,6 +902,12 @@ class Gen:
                     return ("let %s := %s in\nmatch %s with\n| VC \"Some\" [%s] =>\n%s\n| VC \"None\" [] =>\n%s\n| _ => %s\nend" % (
                         r, v, r, sv, k(env2, sv), self.ev(cbody, env2, k), self.stuck(env2)))
                 return self.ev(recv, env, after)
+            if recv == ("var", "self") and m in self.selfmethods:
+                n, v = self.fresh("self"), self.fresh("v")
+                env2 = dict(env)
+                env2["self"] = n
+                return "let '(%s, %s) := ext_st %s [%s] %s in\n%s" % (
+                    n, v, cstr("self.%s" % m), "; ".join(self.e(a, env) for a in args), env["self"], k(env2, v))
             if m == "context" and len(args) == 1 and args[0][0] == "ctor" and args[0][1].endswith("Snafu"):
                 return self.ev(recv, env, lambda env2, v: k(env2, "(v_context %s %s)" % (cstr("Error::" + args[0][1][:-5]), v)))
             if recv[0] == "var" and recv[1] in self.handles:
@@ -1070,6 +1105,15 @@ class Gen:
         inner = self.pat(pat, v, env, lambda env2: self.block(body, env2, k), "%s tt" % nk)
         return "(let %s := fun _ : unit =>\n%s in\n%s)" % (nk, nxt, inner)
 
+    def binds(self, p):
+        if p[0] == "var":
+            return True
+        if p[0] == "ctor":
+            return any(self.binds(q) for q in p[2])
+        if p[0] == "or":
+            return any(self.binds(q) for q in p[1])
+        return False
+
     def pat(self, p, v, env, succ, fail):
         if p[0] == "wild":
             return succ(env)
@@ -1079,6 +1123,13 @@ class Gen:
             return succ(env)
         if p[0] == "num":
             return "(if v_eqb %s (VN %d) then %s else %s)" % (v, p[1], succ(env), fail)
+        if p[0] == "or" and any(self.binds(a) for a in p[1]):
+            # alternatives that bind: the body is generated for each of them
+            inner = fail
+            for alt in reversed(p[1]):
+                t = self.fresh("alt")
+                inner = "(let %s := fun _ : unit =>\n%s in\n%s)" % (t, inner, self.pat(alt, v, env, succ, "%s tt" % t))
+            return inner
         if p[0] == "or":
             # alternatives bind nothing: the body is generated once, behind a thunk
             b = self.fresh("body")
@@ -1099,10 +1150,20 @@ class Gen:
         raise Fail("pattern %r" % (p,))
 
 
-def translate(src, name, calls, effects, chans=(), mutcalls=None, handles=(), fuelcalls=None, stcalls=()):
+def translate(src, name, calls, effects, chans=(), mutcalls=None, handles=(), fuelcalls=None, stcalls=(), state_param=None, selfmethods=()):
     fn_only = name.split(".")[-1]
-    p = Parser(tokenize(find_fn(src, name)), fn_only)
+    toks = tokenize(find_fn(src, name))
+    if state_param and state_param.get(name):
+        # a free function whose state is one of its parameters (a `&mut ChannelSlot`, a `&Sender<T>`):
+        # that parameter plays the part of self
+        sp = state_param[name]
+        if "self" in toks:
+            raise Fail("state parameter in a function that has self")
+        toks = ["self" if t == sp else t for t in toks]
+    p = Parser(toks, fn_only)
     fname, params, mutself, body = p.fn()
+    if state_param and state_param.get(name):
+        mutself = True
     cname = "gen_" + name.replace(".", "_")
     threaded = (["self"] if mutself else []) + [x for x in params if x in effects]
     if mutcalls is not None and threaded == ["self"]:
@@ -1111,6 +1172,7 @@ def translate(src, name, calls, effects, chans=(), mutcalls=None, handles=(), fu
     g.handles = set(handles)
     g.fuelcalls = fuelcalls if fuelcalls is not None else set()
     g.stcalls = set(stcalls)
+    g.selfmethods = set(selfmethods)
     env = {x: x for x in params}
     text = g.block(body, env, lambda env2, v: g.ret(v, env2))
     ty = " * ".join(["val"] * (len(threaded) + 1))
@@ -1155,6 +1217,8 @@ if __name__ == "__main__":
     chans = spec.get("channels", [])
     handles = spec.get("handles", [])
     stcalls = spec.get("stateful_calls", [])
+    state_param = spec.get("state_param", {})
+    selfmethods = spec.get("self_methods", [])
     mutcalls = set()
     fuelcalls = set()
     out = [HEADER % ", ".join(sorted(set(p for p, _ in fns)))]
@@ -1164,7 +1228,7 @@ if __name__ == "__main__":
         # a call may only go to a function translated before it
         avail = {m: c for m, c in calls.items() if c in done}
         try:
-            out.append("(* ---- %s :: %s ---- *)\n" % (path, n) + translate(open(path).read(), n, avail, effects, chans, mutcalls, handles, fuelcalls, stcalls))
+            out.append("(* ---- %s :: %s ---- *)\n" % (path, n) + translate(open(path).read(), n, avail, effects, chans, mutcalls, handles, fuelcalls, stcalls, state_param, selfmethods))
             done.add("gen_" + n.replace(".", "_"))
         except (Fail, OSError) as ex:
             ok = False
